@@ -267,3 +267,23 @@ Fixpoint mismatches_from {A} (ok : A -> bool) (i : N) (l : list A) : list N :=
   | c :: l' => if ok c then mismatches_from ok (i + 1) l' else i :: mismatches_from ok (i + 1) l'
   end.
 Definition mismatches {A} (ok : A -> bool) (l : list A) : list N := mismatches_from ok 0 l.
+
+(* ---------------- looks leg: ConnectionState() called more than once ----------------
+   (internal state of the connection at the first ConnectionState() call of a generation; the
+    events after that call, 0 = a ConnectionState() call, e + 1 = one record sent at epoch e; the
+    sequence numbers the calls returned, the first call included).  The model runs the history on
+    [export] (a function of the current state, no memory of earlier calls). *)
+Definition ev_of (n : N) : ev := if n =? 0 then EvLook else EvSend (n - 1).
+
+Fixpoint optlist_eqb (a b : list (option N)) : bool :=
+  match a, b with
+  | [], [] => true
+  | x :: a', y :: b' => optN_eqb x y && optlist_eqb a' b'
+  | _, _ => false
+  end.
+
+Definition looks_case := (istate * list N * list N)%type.
+
+Definition looks_ok (c : looks_case) : bool :=
+  let '(s, evs, obs) := c in
+  optlist_eqb (looks_seqs false (conn_fresh s) (EvLook :: map ev_of evs)) (map Some obs).
